@@ -833,10 +833,49 @@ def m_find(I, st, call):
     return out
 
 
+def m_find_range_exact(I, st, call, lo, hi):
+    """find over a constant range lo..hi: the predicate is evaluated for each
+    index in turn; a definite answer continues or stops, an unknown one splits"""
+    f, fty = call.args[1], call.arg_tys[1]
+    out = []
+    states = [st]
+    for i in range(lo, hi):
+        nxt = []
+        for s in states:
+            I.nsym += 1
+            key = ("h", "finditem*%d" % I.nsym)
+            item = IntV(Aff.const(i), USIZE)
+            s.cells[key] = item
+            rs = call_fn_value(I, s, call, f, fty, [RefV(Place(key), False)], ("find", i))
+            if rs is None:
+                return None
+            for s2, rv in rs:
+                rv = I.as_int(s2, rv, BOOL, "pred")
+                c = rv.cond if rv.cond is not None else ("cmp", "Ne", rv.aff, Aff.const(0))
+                s3 = s2.copy()
+                for s4 in assume(s2, c, True):
+                    out.append((s4, mk_option(I, item, call.dest_ty)))
+                for s4 in assume(s3, c, False):
+                    nxt.append(s4)
+        states = nxt
+        if not states:
+            break
+        if len(states) > 8:
+            return None
+    for s in states:
+        out.append((s, mk_none(call.dest_ty)))
+    return out
+
+
 def m_find_range(I, st, call, itv):
     """find over an integer range a..b with a predicate: result r satisfies
     a <= r < b and pred(r); all earlier indices fail the predicate (not used)"""
     f, fty = call.args[1], call.arg_tys[1]
+    if getattr(I, "precise_find", False) and isinstance(itv, StructV) and len(itv.fields) == 2 \
+            and all(isinstance(x, IntV) and x.aff.is_const() for x in itv.fields) and 0 <= itv.fields[1].aff.c - itv.fields[0].aff.c <= 64:
+        r = m_find_range_exact(I, st, call, itv.fields[0].aff.c, itv.fields[1].aff.c)
+        if r is not None:
+            return r
     out = [(st.copy(), mk_none(call.dest_ty))]
     item = _range_item(I, st, itv, USIZE)
     if item is None:
